@@ -2,6 +2,7 @@ package main
 
 import (
 	"go/token"
+	"go/types"
 	"strings"
 
 	"golang.org/x/tools/go/ssa"
@@ -22,6 +23,7 @@ func init() {
 func runC29(w *World, r *Report) {
 	r.Rule("R-C29-1", "no re-broadcast: from cluster.FlushCacheHandler the call graph reaches caches.PurgeLocal and none of caches.Purge, caches.PurgeAll, cluster.BroadcastCacheFlush, cluster.SendCacheFlush", 5)
 	r.Rule("R-C29-2", "in caches.purge the `go OnPurge(id)` is reachable only through the notify-true edge; every store to caches.OnPurge stores cluster.BroadcastCacheFlush", 2)
+	r.Rule("R-C29-6", "every member has its own time budget: no deadline (context.WithTimeout / WithDeadline) created outside the loop over the members is handed to the per-member send", 1)
 	r.Rule("R-C29-3", "bound and completeness: BroadcastCacheFlush calls SendCacheFlush at one site, inside one loop over the ListActiveMembers result, with a constant hop count, and no path leaves that loop other than through its header; FlushCacheHandler purges only behind Hops <= maxFlushHops", 2)
 
 	clp := w.pkg("internal/server/cluster")
@@ -257,10 +259,65 @@ func runC29(w *World, r *Report) {
 			}
 		}
 
-		if k, isC := constInt(s.Call.Args[2]); !isC {
+		// the hop argument: the parameter of the send function named "hops" (or,
+		// failing that, its last int parameter)
+		hopIdx := -1
+
+		if callee := s.Common().StaticCallee(); callee != nil {
+			for pi, prm := range callee.Params {
+				if b, ok := prm.Type().Underlying().(*types.Basic); ok && b.Info()&types.IsInteger != 0 {
+					if prm.Name() == "hops" || hopIdx < 0 || callee.Params[hopIdx].Name() != "hops" {
+						hopIdx = pi
+					}
+				}
+			}
+		}
+
+		if hopIdx < 0 || hopIdx >= len(s.Call.Args) {
+			problems = append(problems, "the send function has no hop-count parameter")
+		} else if k, isC := constInt(s.Call.Args[hopIdx]); !isC {
 			problems = append(problems, "the hop count of an originating flush is not a constant")
 		} else if k > 1 {
 			problems = append(problems, "the originating hop count is greater than 1")
+		}
+
+		// R-C29-6: every send has its own time budget
+		{
+			key6 := "cluster.BroadcastCacheFlush|each send has its own deadline"
+			shared := false
+
+			if len(loops) == 1 {
+				li := loops[0]
+
+				for _, a := range s.Call.Args {
+					if !strings.HasSuffix(a.Type().String(), "context.Context") {
+						continue
+					}
+
+					if derivesFrom(a, func(v ssa.Value) bool {
+						if ex, isEx := v.(*ssa.Extract); isEx {
+							v = ex.Tuple
+						}
+
+						c, ok := v.(*ssa.Call)
+						if !ok {
+							return false
+						}
+
+						id := callID(c.Common())
+
+						return (id == "context.WithTimeout" || id == "context.WithDeadline") && !li.body[c.Block()]
+					}, nil) {
+						shared = true
+					}
+				}
+			}
+
+			if shared {
+				r.Violate("R-C29-6", key6, w.pos(s.Pos()), "the sends to all members run under one deadline created before the loop: the time one slow member takes is taken from every member after it in join order, and once the budget is used up the remaining members are never told to discard the cache")
+			} else {
+				r.Discharge("R-C29-6", key6, w.pos(s.Pos()), "no deadline created outside the loop is handed to the per-member send")
+			}
 		}
 
 		if len(problems) > 0 {
